@@ -45,7 +45,7 @@ def batches(tier, seed):
     per = 700 if tier == "quick" else 5000
     b += [("triples/%d" % i, ("triples", (seed, i, per))) for i in range(n)]
     b += [("refusal", ("refusal", None)), ("hash", ("hash", seed))]
-    nh, perh = (8, 6) if tier == "quick" else (32, 24)
+    nh, perh = (8, 6) if tier == "quick" else (32, 10)
     b += [("history/%d" % i, ("history", (seed, i, perh, tier))) for i in range(nh)]
     return b
 
